@@ -227,6 +227,14 @@ func init() {
 			name, _ := concreteStr(args[0].(StrV))
 			return w.strConst(w.job.CfgS["env:"+name])
 		},
+		"os.LookupEnv": func(w *Worker, _ *ssa.Function, args []Value, _ ssa.CallInstruction) Value {
+			name, _ := concreteStr(args[0].(StrV))
+			v, ok := w.job.CfgS["env:"+name]
+			return TupleV{w.strConst(v), w.B.Bool(ok)}
+		},
+		zz + "FSMkdir":     nop,
+		zz + "FSTouch":     nop,
+		zz + "FSEnterTemp": nop,
 		"os.Setenv": func(w *Worker, _ *ssa.Function, args []Value, _ ssa.CallInstruction) Value {
 			return IfaceV{} // environment comes from the job configuration (os.Getenv intrinsic)
 		},
